@@ -9,6 +9,7 @@ run_one() { # kind prop patch
   local kind=$1 prop=$2 patch=$(readlink -f $3)
   local scratch=$(mktemp -d /tmp/govc-selftest-XXXXXX)
   cp -r /repo/. $scratch/ && rm -rf $scratch/.git
+  mkdir -p $scratch/.verif && cp known_findings.json $scratch/.verif/
   if ! (cd $scratch && patch -p1 -s < $patch >/dev/null 2>&1); then echo "SELFTEST-BROKEN $prop $(basename $patch): patch does not apply"; rm -rf $scratch; return 1; fi
   local out; out=$(./bin/govc check --prop $prop --repo $scratch --verif $scratch/.verif --no-evidence 2>&1); local rc=$?
   rm -rf $scratch
